@@ -49,6 +49,8 @@ type Exec struct {
 	curCallFrame *frame
 	curCallArg0  ssa.Value
 	defaultSpecs map[string]*FuncSpec
+	entryFacts bool
+	witnesses  map[string]Val
 }
 
 type modLoc struct {
